@@ -850,9 +850,15 @@ var jDangling = []string{
 	"if(a){if(b){if(c)%1}else %2}else %3",
 	"if(a){if(b)%1else{if(c)%2}}else %3",
 	"if(a){if(b)%1;if(c)%2}else %3",
+	"if(a){if(b||c)%1}",
+	"if(a||b){if(c)%1}",
+	"if(a){if(b&&c||a)%1}",
+	"if(a)if(b||c)%1",
+	"if(a){if(b||c)%1}%2",
+	"if(a){if(b)%1}else if(b||c)%2",
 }
 
-// VerifJSDanglingElse: nested if / else-if chains whose braces decide which `if` an `else` belongs to; the branch
+// VerifJSDanglingElse: 15 shapes of nested if / else-if chains whose braces decide which `if` an `else` belongs to; the branch
 // bodies are blocks with lexical declarations (which keeps the ifs from being turned into expressions) or plain calls.
 func VerifJSDanglingElse(n int) {
 	t := jDangling[vChoice("shape", len(jDangling))]
